@@ -42,6 +42,8 @@ async def impl_write(version, cur, overrides, reject, status_family, e=None):
         if name == "getValue":
             vid = int(kwargs.get("valueId", args[0] if args else None))
             ops.append(f"gv{vid}")
+            if ("g", vid) in reject:
+                return (bad, b"")     # the value cannot be read (it can be written all the same)
             return (ok, b"\x00")
         if name == "setValue":
             vid = int(kwargs["valueId"])
@@ -112,8 +114,10 @@ def gen_case(ctx, version, keys, defaults):
         if r < 0.15:
             cur[i] = None
         else:
-            cur[i] = rng.choice([0, 1, 2, 4, 8, 15, 16, 17, 32, 33, 64, 199, 200, 201, 255, 1000])
+            cur[i] = rng.choice([0, 1, 2, 4, 8, 15, 16, 17, 32, 33, 64, 199, 200, 201, 255, 256, 1000, 0x7FFF, 0x8000, 0xFFFE, 0xFFFF])
     reject = set()
+    if rng.random() < 0.3:
+        reject.add(("g", int(t.EzspValueId.VALUE_FORCE_TX_AFTER_FAILED_CCA_ATTEMPTS)))
     if rng.random() < 0.4:
         for i in ids:
             if rng.random() < 0.3:
